@@ -197,6 +197,32 @@ fn gen_cases(cfg: &Cfg) -> Vec<Case> {
             cycles,
         });
     }
+    // the serialised size of every role varies independently of its version (an extra signed
+    // member of 0 or 37 bytes), so that stored files shrink and grow along a history
+    for (ci, case) in v.iter_mut().enumerate() {
+        for (k, cyc) in case.cycles.iter_mut().enumerate() {
+            let mut r = Rng::new(ci as u64 * 131 + k as u64);
+            cyc.served.pad = [37 * r.usize(2), 37 * r.usize(2), 37 * r.usize(2)];
+        }
+    }
+    // templates [mid (long files), hi (short files), lowering of hi]: a newer, SHORTER file
+    // replaces the stored one before an older version is replayed
+    for low in 1..81u64 {
+        let d = [low % 3, (low / 3) % 3, (low / 9) % 3, (low / 27) % 3];
+        let comp = |k: usize| 3u64.saturating_sub(d[k]).max(1);
+        let mid = Served::new(2, 2, Some(2), 2).with_pad([37, 37, 37]);
+        let hi = Served::new(3, 3, Some(3), 3);
+        let lo = Served::new(comp(0), comp(1), Some(comp(2)), comp(3)).with_pad([37 * (low as usize % 2), 0, 37]);
+        v.push(Case {
+            kind: "template",
+            consistent: low % 2 == 1,
+            cycles: vec![
+                Cyc { served: mid, publish: vec![] },
+                Cyc { served: hi, publish: vec![] },
+                Cyc { served: lo, publish: vec![] },
+            ],
+        });
+    }
     v
 }
 
@@ -374,6 +400,7 @@ fn run_case(w: &mut Worker, c: &Case) -> CaseOut {
             "roots_published_before" => J::A(cyc.publish.iter().map(|p| J::S(p.1.clone())).collect()),
             "newest_root" => published_at[k],
             "served(ts,snap,listed,targets)" => cyc.served.tuple(),
+            "extra_member_bytes(ts,snap,targets)" => format!("{:?}", cyc.served.pad),
             "observed" => o.to_j(),
         }).collect()),
     });
